@@ -384,12 +384,12 @@ func genC04(t *rapid.T) c04Case {
 		case 0:
 		case 9:
 			if thorough() {
-				n = rapid.IntRange(60000, 1000000).Draw(t, "n")
+				n = uniformInt(t, 60000, 1000000, "n")
 			} else {
-				n = rapid.IntRange(60000, 200000).Draw(t, "n")
+				n = uniformInt(t, 60000, 200000, "n")
 			}
 		default:
-			n = rapid.IntRange(7*1281, 60000).Draw(t, "n")
+			n = uniformInt(t, 7*1281, 60000, "n")
 		}
 		q := gen.DrawSeq(t, n, []string{"uniform", "uniform", "uniform", "biased", "constant", "periodic", "markov", "alternating", "sparse"})
 		c.Seq = &q
